@@ -54,6 +54,12 @@ Check(t) ==
          \* the normal field of a boundary after binding is that of the original boundary at the joint rows
          ELSE IF pe.normals_exc # "" THEN <<"normal-after-binding-failed", "", Cardinality(J)>>
          ELSE IF \E i \in DOMAIN pe.normals : ~SeqClose(pe.normals[i], pe.normals_full[i], 3) THEN <<"normal-after-binding", "", Cardinality(J)>>
+         \* the plot sampler evaluates the domain at the given values of the other variables: every plot point lies in the closed
+         \* set at those values (interior grid + boundary grid), carries exactly those values, and a second call returns as many
+         \* (a failing or endless call is judged only where the evaluated set has positive measure: >= 8 of the lattice points inside)
+         ELSE IF "plot_exc" \in DOMAIN pe /\ pe.plot_exc \notin {"", "none"} /\ Cardinality({i \in DOMAIN pe.pts : In(e, Q(pe.pts[i]))}) >= 8 THEN <<"plot-sampler-failed:" \o pe.plot_exc, "", Cardinality(J)>>
+         ELSE IF "plot_exc" \in DOMAIN pe /\ pe.plot_exc = "" /\ ~pe.plot_cols_ok THEN <<"plot-sampler-other-variables", "", Cardinality(J)>>
+         ELSE IF "plot" \in DOMAIN pe /\ \E i \in DOMAIN pe.plot : ~InTol(e, Q(pe.plot[i]), Tol) THEN <<"plot-sampler-point-outside", "", Cardinality(J)>>
          \* (last: an acknowledged deviation) the volume the user set on D is the volume of D(**v)
          ELSE IF pe.uservol_pe_exc = "" /\ \E i \in DOMAIN pe.uservol_pe : pe.uservol_pe[i] # 5 * 1024 THEN <<"user-set-volume-lost-by-binding", "user_volume_lost_by_binding", Cardinality(J)>>
          ELSE IF pe.uservol_pe_exc \notin {"", "none"} THEN <<"user-set-volume-after-binding-failed", "", Cardinality(J)>>
